@@ -126,7 +126,19 @@ func c02Value(r *Rand, o *Opt, class string) (string, bool) {
 	return "", false
 }
 
+// c02Nested: deeper nestings of pointers and slices. What a pointer to a list does with earlier content is not
+// stated anywhere (it is extended, not replaced), so these types appear only where two spellings are compared from
+// the same starting state - never in histories or against a denotation.
+var c02Nested = []TypeSpec{{K: KInt, W: WPtrPtr}, {K: KInt, W: WPtrSlice}, {K: KFloat64, W: WPtrSlice}, {K: KInt64, W: WPtrPtr}}
+
 func c02Cfg() *DeclCfg {
+	cfg := c02CfgPlain()
+	cfg.Types = append(append([]TypeSpec{}, typesAll...), c02Nested...)
+	cfg.Types = append(cfg.Types, c02Nested...)
+	return cfg
+}
+
+func c02CfgPlain() *DeclCfg {
 	return &DeclCfg{
 		MaxDepth: 2, MaxFan: 2, PCmds: 60, Types: typesAll, OptsMin: 1, OptsMax: 4, SubGroupsMax: 1, PInline: 20, NestMax: 1,
 		PNamespace: 40, PShortOnly: 10, PLongOnly: 10, NonASCII: true, PClash: 0,
@@ -189,7 +201,7 @@ func c02Run(c *Ctx) {
 	k := c.K
 	if inHistTail(c, 48000, 1500000) {
 		// the long spelling after the program renamed something between two parses on one parser
-		histCase(c, GenDecl(c.Sub("d"), c02Cfg()), []string{"rename-namespace", "rename-option", "delimiter"}, []string{"parse"})
+		histCase(c, GenDecl(c.Sub("d"), c02CfgPlain()), []string{"rename-namespace", "rename-option", "delimiter"}, []string{"parse"})
 		return
 	}
 	if k%8 == 7 {
